@@ -27,6 +27,14 @@ def run(m, tier):
     results.append(two_roundtrip.roundtrip_rule(m, "C01.R22", floor=230))
     from rules import reader_rules as _rr
     results.append(_rr.replace_map_table_rule(m, "C01.R23"))
+    results.append(two_roundtrip.block_printer_rule(m, "C01.R24"))
+    results.append(_rr.rule_semicolon(m, "C01.R25"))
+    from rules import C17
+    r26 = C17.r16_list_elements(m)
+    r26.rule = "C01.R26"
+    for f_ in r26.findings:
+        f_.rule = "C01.R26"
+    results.append(r26)
     from rules import optional_rules
     results.append(optional_rules.optional_rule(m, "C01.R12"))
     results.append(optional_rules.printed_rule(m, "C01.R18"))
